@@ -32,8 +32,17 @@ def call(graph, x, y, z, api):
             e = identify_outcomes(graph, xs, ys, zs)
             out = {"k": "unident"} if e is None else {"k": "expr", "e": e}
         else:
-            q = Query(treatments=xs, outcomes=ys, conditions=zs)
-            ident = Identification(graph=graph, query=q)
+            if api == 2:
+                # the documented entry point: the query written as a probability term, P[X](Y | Z)
+                from y0.dsl import Distribution, P
+                dist = Distribution(children=tuple(sorted(ys, key=str)), parents=tuple(sorted(zs or (), key=str)))
+                ident = Identification.from_expression(graph=graph, query=P[xs](dist) if xs else P(dist))
+                q = ident.query
+                if q.treatments != xs or q.outcomes != ys or q.conditions != (zs or set()):
+                    raise AssertionError(f"from_expression read {q.outcomes} | do {q.treatments} | {q.conditions}")
+            else:
+                q = Query(treatments=xs, outcomes=ys, conditions=zs)
+                ident = Identification(graph=graph, query=q)
             try:
                 e = idc(ident) if zs else identify(ident)
                 out = {"k": "expr", "e": e}
@@ -96,7 +105,7 @@ def main():
                 graph = build_graph(g, order)
                 if order == 2:
                     graph = with_history(g, graph, qi)
-                out = call(graph, x, y, z, api=order % 2)
+                out = call(graph, x, y, z, api=(order + qi) % 3)   # identify_outcomes | Query + Identification | from_expression
                 if out["k"] == "expr":
                     try:
                         t = ser_expr(out["e"])
